@@ -231,7 +231,14 @@ fn mul_case(eng: EngineKind, log_m: u16, out: &mut CaseOut) {
         crate::mon_c03::structure_block(&mut rng, b);
     }
     let input = sb.clone();
-    codec::dyn_engine(eng).mul(&mut sb, log_m);
+    if log_m % 2 == 0 {
+        codec::dyn_engine(eng).mul(&mut sb, log_m);
+    } else {
+        // shard storage need not be aligned (see mon_c03::Misaligned)
+        let mut m = crate::mon_c03::Misaligned::from_blocks(&input, 1 + (log_m as usize / 2) % 63);
+        codec::dyn_engine(eng).mul(m.blocks_mut(), log_m);
+        sb.copy_from_slice(m.blocks());
+    }
     out.evals += 128 * 32;
     'outer: for (bi, (i, o)) in input.iter().zip(&sb).enumerate() {
         for l in 0..32 {
